@@ -13,6 +13,7 @@ import (
 	"runtime"
 	"sort"
 	"sync"
+	"sync/atomic"
 	"time"
 )
 
@@ -53,9 +54,38 @@ type shard struct {
 	samples       []string
 	viol          []violation
 	nviol         int64
+
+	// the library call in progress (formatted only when it panics or hangs)
+	curFn    string
+	curPrios []uint
+	curArgs  [3]uint64
+	curF     float64
+	tick     atomic.Int64 // unix nanoseconds of the last mark
+	finished atomic.Bool  // set by whoever accounts for the shard: its worker, or the watchdog
 }
 
-func newShard() *shard { return &shard{classes: map[string]int64{}} }
+func newShard() *shard {
+	s := &shard{classes: map[string]int64{}}
+	s.tick.Store(time.Now().UnixNano())
+	return s
+}
+
+// mark records which library call is about to be made.
+func (s *shard) mark(fn string, prios []uint, a, b, c uint64, f float64) {
+	s.curFn, s.curPrios, s.curArgs, s.curF = fn, prios, [3]uint64{a, b, c}, f
+	s.tick.Store(time.Now().UnixNano())
+}
+
+func (s *shard) cur() string {
+	if s.curPrios != nil {
+		return fmt.Sprintf("%s(priorities %v, %d, %d, %v)", s.curFn, s.curPrios, s.curArgs[0], s.curArgs[1], s.curF)
+	}
+	return fmt.Sprintf("%s(%d, %d, %d)", s.curFn, int64(s.curArgs[0]), s.curArgs[1], int64(s.curArgs[2]))
+}
+
+// hangLimit: a library call that normally takes microseconds and has not
+// returned after this long is reported as not terminating.
+const hangLimit = 60 * time.Second
 
 func (s *shard) class(c string) { s.classes[c]++ }
 
@@ -91,22 +121,86 @@ func (c *collector) merge(s *shard) {
 	}
 }
 
-// parallel runs f(i) for i in [0,n) on all cores, one shard per call.
+// parallel runs f(i) for i in [0,n) on all cores, one shard per call. A panic
+// of the library is a violation for the input being evaluated, and so is a call
+// that does not return (a watchdog abandons the shard after hangLimit).
 func (c *collector) parallel(n int, f func(i int, s *shard)) {
 	var wg sync.WaitGroup
 	sem := make(chan struct{}, runtime.NumCPU())
-	for i := 0; i < n; i++ {
+	var mu sync.Mutex
+	var aborted atomic.Bool
+	active := map[*shard]bool{}
+	stop := make(chan struct{})
+	account := func(s *shard) {
+		// exactly once per shard
+		if s.finished.CompareAndSwap(false, true) {
+			mu.Lock()
+			delete(active, s)
+			mu.Unlock()
+			c.merge(s)
+			<-sem
+			wg.Done()
+		}
+	}
+	go func() {
+		t := time.NewTicker(time.Second)
+		defer t.Stop()
+		for {
+			select {
+			case <-stop:
+				return
+			case <-t.C:
+			}
+			now := time.Now().UnixNano()
+			mu.Lock()
+			var stuck []*shard
+			for s := range active {
+				if now-s.tick.Load() > int64(hangLimit) {
+					stuck = append(stuck, s)
+				}
+			}
+			mu.Unlock()
+			for _, s := range stuck {
+				// the worker is inside the library and never comes back: report for it
+				h := newShard()
+				h.inputs, h.evals = s.inputs, s.evals
+				h.class("DOES NOT RETURN")
+				h.fail(fmt.Sprintf("the call has not returned after %v (it normally takes microseconds)", hangLimit), s.cur(), "no result", "")
+				if s.finished.CompareAndSwap(false, true) {
+					mu.Lock()
+					delete(active, s)
+					mu.Unlock()
+					c.merge(h)
+					c.mu.Lock()
+					c.res.Exhaustive = false
+					c.mu.Unlock()
+					aborted.Store(true) // one non-terminating call decides; the remaining shards are not started
+					<-sem
+					wg.Done()
+				}
+			}
+		}
+	}()
+	for i := 0; i < n && !aborted.Load(); i++ {
 		wg.Add(1)
 		sem <- struct{}{}
+		s := newShard()
+		mu.Lock()
+		active[s] = true
+		mu.Unlock()
 		go func(i int) {
-			defer wg.Done()
-			defer func() { <-sem }()
-			s := newShard()
+			defer account(s)
+			defer func() {
+				if r := recover(); r != nil && !s.finished.Load() {
+					s.class("PANIC")
+					s.fail(fmt.Sprintf("the call panicked: %v", r), s.cur(), "panic", "")
+				}
+			}()
 			f(i, s)
-			c.merge(s)
 		}(i)
 	}
 	wg.Wait()
+	close(stop)
 }
 
 func main() {
